@@ -908,16 +908,26 @@ func run(c *mc.Ctx) {
 				if depth <= fullRotDepth {
 					nrot = rotations
 				}
+				idx++
+				if idx%4096 == 0 && c.Expired() {
+					c.Cap(fmt.Sprintf("time budget reached in the nesting space at depth %d; all smaller depths were covered completely", depth))
+					return
+				}
+				if !c.Mine(idx) {
+					continue
+				}
+				var seen [rotations]string
 				for r := 0; r < nrot; r++ {
-					idx++
-					if idx%4096 == 0 && c.Expired() {
-						c.Cap(fmt.Sprintf("time budget reached in the nesting space at depth %d; all smaller depths were covered completely", depth))
-						return
-					}
-					if !c.Mine(idx) {
-						continue
-					}
 					root := fill(shape, r)
+					text := root.Text()
+					dup := false
+					for _, s := range seen[:r] {
+						dup = dup || s == text
+					}
+					seen[r] = text
+					if dup {
+						continue // same text as an earlier rotation (all leaves of a one-valued alphabet)
+					}
 					checkExpr(c, root, fmt.Sprintf("depth%d", depth))
 					recordCoverage(c, root, depth)
 				}
